@@ -151,6 +151,24 @@ def export(ctx, cfg):
     ctx.check(env.blob_eq(ctx, a, fs.read(0, "x.blm")), "export-to-self-noop")
 
 
+def clear(ctx, cfg):
+    """clear() on the on-disk filter: the file becomes the export of an empty filter at once (bits AND recorded count), and stays
+    so across close / reopen (C11 'always a valid, current export'; C19 'clear() returns it to its initial state')"""
+    from probables import BloomFilter, BloomFilterOnDisk
+    fs, f = _open(ctx, cfg)
+    L, k, m = f.bloom_length, f.number_hashes, f.number_bits
+    bits, N = _sym_content(ctx, fs, f)
+    f.clear()
+    empty = env.export_bytes(ctx, BloomFilter(cfg["est"], cfg["fpr"]))
+    ctx.check(f.elements_added == 0, "clear-resets-counter")
+    ctx.check(env.blob_eq(ctx, fs.read(0, "x.blm"), empty), "clear-file-is-empty-export")
+    f.close()
+    ctx.check(env.blob_eq(ctx, fs.read(0, "x.blm"), empty), "clear-file-is-empty-export-after-close")
+    g = BloomFilterOnDisk(fs.path(0, "x.blm"))
+    ctx.on_exit(g.close)
+    ctx.check(g.elements_added == 0 and g.check_alt(hv(ctx, "q", k, m)) is False, "clear-survives-reopen")
+
+
 def setops(ctx, cfg):
     """C12/C13 with an on-disk operand in either position (goes through BloomFilterOnDisk._get_element)"""
     from .c01 import sym_bloom, bits_of
@@ -202,7 +220,7 @@ def queries(ctx, cfg):
     ctx.check(ctx.eq(f.elements_added, N), "queries-leave-counter")
 
 
-HARNESS = {"c11.add_crash": add_crash, "c11.history": history, "c11.reopen": reopen, "c11.export": export, "c11.setops": setops,
+HARNESS = {"c11.add_crash": add_crash, "c11.history": history, "c11.reopen": reopen, "c11.export": export, "c11.setops": setops, "c11.clear": clear,
            "c11.queries": queries}
 
 
@@ -212,6 +230,6 @@ def jobs(tier):
     for est, fpr in geos:
         for op in ("add", "close"):
             js.append({"h": "c11.add_crash", "cfg": {"est": est, "fpr": fpr, "op": op}, "opts": {"cost": est * 5}})
-        for h in ("history", "reopen", "export", "setops", "queries"):
+        for h in ("history", "reopen", "export", "setops", "queries", "clear"):
             js.append({"h": "c11." + h, "cfg": {"est": est, "fpr": fpr}, "opts": {"cost": est}})
     return js
